@@ -1,6 +1,7 @@
 import Invoke.Lemmas.ParserSituations
 import Invoke.Lemmas.ParserSpecs
 import Invoke.Lemmas.ParserConverse
+import Invoke.Lemmas.ParserCast
 import Invoke.Generated.Parser
 /-! # C07 — parsing is total, side-effect free and fails only with the documented parse error
 
@@ -333,6 +334,37 @@ example : ∃ m, Reach { initial := some exCore, cur := none, registry := exReg,
 /-- no fuel exhaustion on a token that is split into many pieces -/
 example : (procTok' 9 { initial := some exCore, cur := none, registry := exReg, ignoreUnknown := false } "-eeeeee".toList).isSome = true :=
   no_fuel_exhaustion 9 _ _ (by decide)
+
+/-! ## The integer cast (`kind = int`): the ASCII part of Python's `int(text)`
+
+`pyInt?` models `int(str)` for ASCII text: surrounding ASCII whitespace (space, \t, \n, \r, \x0b, \x0c) is stripped, an
+optional sign stands directly before the digits, leading zeros are allowed (`08`, `007`), single underscores may separate
+digits (`1_000`), nothing else (no `0x`/`0o`/`0b` literals: that would be `int(text, 0)`).  NOT modelled, judged by the
+harness oracle (`int()` itself) only: non-ASCII decimal digits and non-ASCII whitespace, which `int()` also accepts.
+A text `pyInt?` rejects makes the parse fail with the "invalid-value" `ParseError` (`error_invalid_value_converse`). -/
+
+/-- plain decimals WITH leading zeros are integers -/
+theorem cast_int_leading_zeros (ds : List Char) (hne : ds ≠ []) (h : ds.all Char.isDigit = true) :
+    pyInt? ds = some (Int.ofNat (digitsToNat ds)) := pyInt?_decimal ds hne h
+
+/-- leading ASCII whitespace does not matter -/
+theorem cast_int_leading_space (c : Char) (s : Tok) (hc : isPySpace c = true) : pyInt? (c :: s) = pyInt? s :=
+  pyInt?_leading_space c s hc
+
+/-- the cast on the value shapes the harness generates (each line agrees with CPython's `int()`) -/
+theorem cast_int_table :
+    ["0", "7", "00", "08", "007", "010", "-09", "+010", "-0", "1_000", " 7", "7 ", "7\n", "\t7", "99999999999999999999"].map
+        (fun s => pyInt? s.toList) =
+      [some 0, some 7, some 0, some 8, some 7, some 10, some (-9), some 10, some 0, some 1000, some 7, some 7, some 7, some 7,
+       some 99999999999999999999] ∧
+    ["0x1f", "0X1F", "0o17", "0b101", "_1", "1_", "1__0", "+ 7", "", "+", "-", "7 7", "1e3", "1.0", "7\x1c"].all
+        (fun s => (pyInt? s.toList).isNone) = true := by decide
+
+/-- non-vacuity of `cast_int_leading_zeros` -/
+example : "007".toList ≠ [] ∧ "007".toList.all Char.isDigit = true := by decide
+/-- a zero-padded decimal for an int flag parses (and an `0x` literal is the documented cast failure) -/
+example : errKind (parseArgv (some exCore) exReg false (exArgv ["-T", "08"])) = none ∧
+          errKind (parseArgv (some exCore) exReg false (exArgv ["-T=0x1f"])) = some "invalid-value" := by decide
 
 /-! ## The pre-fix behaviour (DESIGN §4 #6) as a statement about a non-well-formed argument state:
     outside `specWF` the model does reach a non-ParseError exit, so the hypothesis is not redundant. -/
